@@ -73,7 +73,7 @@ def emit_histories(cfg, simulate=None, seed=None, depth=None):
 
 
 def run_children(jobs_by_child, hashseeds):
-    d = tempfile.mkdtemp(prefix="c04_", dir=lib.WORK)
+    d = lib.workdir("c04_")
     procs = []
     for i, jobs in enumerate(jobs_by_child):
         if not jobs:
